@@ -55,6 +55,18 @@ CHECKS["C18"] = dict(
    ref="DESIGN.md §5 C18")
 
 
+CHECKS["C08"] = dict(
+   technique="Coq proofs (DFS with visited set = reachability through non-FFI packages; sorted duplicate-free Requires; path mapping) over a model of getFfi/imports/PrintImports/ImportToPath + regenerated ffiMapping/builtinImports tables + per-run obligations on the mirrored functions + differential run on generated import graphs",
+   text="Theorems for every import graph and table: the FFIs collected by the visit are exactly those of the packages reachable from the root through imports of non-FFI packages (dependencies hidden behind an FFI do not count); none/one/refusal; header and footer per choice; the Requires are exactly the non-builtin imports, once each, sorted, independent of order and repetition across files; the Require's logical path and the output path derive from the same mapped import path. Per run the two tables are regenerated from goose.go and drive the extracted model, the mirrored function bodies are compared, and scratch modules with generated import graphs (direct, transitive, hidden behind another FFI, two FFIs; dashed, dotted, trusted paths) are translated by the real goose and compared with the model on the graph reported by go list.",
+   note="golang.org/x/tools/go/packages (loading, Visit order) is trusted and enters as the import graph; grove_ffi is a stand-in module. Model reflects /repo after three fix: commits (two FFIs reported as an error; Require base name mapped; single-component import paths).",
+   ref="DESIGN.md §5 C08")
+CHECKS["C17"] = dict(
+   technique="Coq proofs about a model of cmd/goose translate/writeFileIfChanged (exit status, exact set of writes, unchanged files, partial output, path injectivity partial/refuted) + per-run obligation on main.go + differential run of the real binary over generated modules, patterns, flags and prior output states",
+   text="Theorems: exit status 0 iff every matched package translated; a write occurs exactly for translated packages (and failed ones only under -ignore-errors, with their partial file) at the path derived from the import path and only when the contents differ; without the flag nothing is written for failed packages; unchanged files are not rewritten; distinct plain paths give distinct files (refuted in general: '-' and '.' both map to '_'). Per run main.go is compared with the frozen text and the real binary is run on scratch modules (translatable, untranslatable and non-compiling packages, goose/!goose tagged files) over pattern sets, -dir, flag combinations and prior output states; exit status, final files, rewritten-or-not and tag selection are compared with the model and go list -tags goose.",
+   note="package loading and pattern matching (go/packages) are trusted inputs; partially non-matching pattern lists are left out (their status is decided inside go/packages). Model reflects /repo after the fix: commit that stops writing '..v' for unloadable packages.",
+   ref="DESIGN.md §5 C17")
+
+
 def main():
     checks = []
     for pid in ALL:
